@@ -19,6 +19,7 @@ pub fn run(prop: &str, c: &mut Ctx) -> bool {
 pub fn worker_case(prop: &str, case: &str) -> String {
     match prop {
         "C04" => c04::worker_case(case),
+        "C12" => c12::worker_case(case),
         "C13" => c13::worker_case(case),
         "C11" => c11::worker_case(case),
         _ => "bad-prop".into(),
